@@ -332,7 +332,7 @@ func H_C18_history() {
 	callsA, callsB := 0, 0
 	sA := func(ctx context.Context, b []byte) (string, error) { callsA++; return "sigA", nil }
 	sB := func(ctx context.Context, b []byte) (string, error) { callsB++; return "sigB", nil }
-	f := &FormatterFilter{Source: &url.URL{Path: "src"}, SignEventTypes: []string{"listed", "listed2"}}
+	f := &FormatterFilter{Source: &url.URL{Path: "src"}, SignEventTypes: []string{"write", "read", "audit"}}
 	cur := 0
 	if nondetBool() {
 		f.Signer = sA
@@ -345,7 +345,8 @@ func H_C18_history() {
 		verifNoteInt("step", op)
 		switch op {
 		case 0, 1, 2:
-			t := [3]eventlogger.EventType{"listed", "listed2", "other"}[op]
+			// the list is in no particular order: membership is what counts
+			t := [3]eventlogger.EventType{"write", "audit", "other"}[op]
 			a0, b0 := callsA, callsB
 			e := &eventlogger.Event{Type: t, Formatted: map[string][]byte{}, Payload: &cWithID{id: "id"}}
 			out, err := f.Process(ctx, e)
